@@ -1992,3 +1992,157 @@ def int_guard_truth(test, var, value):
         return None
     r = ev(test)
     return None if r is None else bool(r)
+
+
+# ---------------------------------------------------------------------------
+# shape obligations on a constant regular expression (syntax tree only)
+
+
+def regex_shape(pattern, flags=0, searched_only=False):
+    """Problems of a statement / declaration pattern that are visible in its
+    syntax tree, per alternative (groups flattened):
+    * 'ws-partial': a repeat over a class that contains the blank does not
+      admit tab / newline / CR as well (at the two ends of a pattern that is
+      only searched for this is immaterial);
+    * 'lazy-ws': a lazy white-space repeat stands in front of a captured
+      value that admits white space itself (the value would start with the
+      blanks);
+    * 'comma-space': white space behind a ',' is required.
+    -> (problems [(kind, text)], counts {ws, lazy})"""
+    from . import rx
+    C = rx.C
+    if isinstance(pattern, bytes):
+        pattern = pattern.decode("latin-1")
+    tree = list(rx.parse(pattern, flags))
+    WS = rx.CharSet.of(" \t\n\r")
+    bad = []
+    counts = dict(ws=0, lazy=0)
+
+    def alts(items):
+        out = [[]]
+        for op, av in items:
+            if op is C.BRANCH:
+                new = []
+                for a in out:
+                    for b in av[1]:
+                        for sub in alts(list(b)):
+                            new.append(a + sub)
+                out = new
+            elif op is C.SUBPATTERN:
+                new = []
+                for a in out:
+                    for sub in alts(list(av[3])):
+                        new.append(a + [("GROUP-OPEN", av[0])] + sub +
+                                   [("GROUP-CLOSE", av[0])])
+                out = new
+            elif op in (C.MAX_REPEAT, C.MIN_REPEAT) and (len(
+                    list(av[2])) > 1 or any(
+                    x[0] in (C.SUBPATTERN, C.BRANCH) for x in av[2])):
+                # a repeated group: its body once, marked optional
+                new = []
+                for a in out:
+                    for sub in alts(list(av[2])):
+                        new.append(a + [("REP-OPEN", av[0])] + sub +
+                                   [("REP-CLOSE", av[0])])
+                out = new
+            else:
+                out = [a + [(op, av)] for a in out]
+        return out
+
+    MARK = ("GROUP-OPEN", "GROUP-CLOSE", "REP-OPEN", "REP-CLOSE")
+
+    def rep_of(it):
+        op, av = it
+        if op in (C.MAX_REPEAT, C.MIN_REPEAT):
+            return av[0], av[1], op is C.MIN_REPEAT, rx.all_chars(
+                list(av[2]))
+        return None
+    seen = set()
+    for alt in alts(tree):
+        for i, it in enumerate(alt):
+            if it[0] in MARK:
+                continue
+            r = rep_of(it)
+            if r is None:
+                continue
+            mn, mx, lazy, cs = r
+            if not (" " in cs and "a" not in cs and "0" not in cs):
+                continue
+            key = (id(it[1]),)
+            first_time = key not in seen
+            seen.add(key)
+            if first_time:
+                counts["ws"] += 1
+            before = [jt for jt in alt[:i] if jt[0] not in MARK]
+            after = [jt for jt in alt[i + 1:] if jt[0] not in MARK]
+            edge = searched_only and (not before or not after)
+            if not (WS <= cs) and not edge and first_time:
+                bad.append(("ws-partial", "a white-space repeat admits "
+                            "only %s" % (cs,)))
+            if before and before[-1][0] is C.LITERAL and \
+                    chr(before[-1][1]) == "," and mn > 0 and first_time:
+                bad.append(("comma-space", "white space is required behind "
+                            "a comma"))
+            if lazy:
+                if first_time:
+                    counts["lazy"] += 1
+                depth = 0
+                for jt in alt[:i + 1]:
+                    if jt[0] == "GROUP-OPEN" and jt[1] is not None:
+                        depth += 1
+                    elif jt[0] == "GROUP-CLOSE" and jt[1] is not None:
+                        depth -= 1
+                optional = 0
+                for jt in alt[:i + 1]:
+                    if jt[0] == "REP-OPEN" and jt[1] == 0:
+                        optional += 1
+                    elif jt[0] == "REP-CLOSE" and jt[1] == 0:
+                        optional -= 1
+                base_optional = optional
+                for jt in alt[i + 1:]:
+                    if jt[0] == "GROUP-OPEN":
+                        depth += jt[1] is not None
+                        continue
+                    if jt[0] == "GROUP-CLOSE":
+                        depth -= jt[1] is not None
+                        continue
+                    if jt[0] == "REP-OPEN":
+                        if jt[1] == 0:
+                            optional += 1
+                        continue
+                    if jt[0] == "REP-CLOSE":
+                        if jt[1] == 0:
+                            optional -= 1
+                        continue
+                    r2 = rep_of(jt)
+                    cs2 = r2[3] if r2 is not None else rx.all_chars([jt])
+                    if depth > 0 and (" " in cs2 or "\t" in cs2):
+                        if first_time:
+                            bad.append(("lazy-ws", "a lazy white-space "
+                                        "repeat stands in front of a "
+                                        "captured value that admits white "
+                                        "space"))
+                        break
+                    if (r2 is None or r2[0] > 0) and \
+                            optional <= base_optional:
+                        # a mandatory item at the lazy repeat's own level
+                        # (or further out) ends the scan
+                        break
+    return bad, counts
+
+
+def group_width(pattern, flags, gid):
+    """(min, max) number of characters group ``gid`` can match"""
+    from . import rx
+    if isinstance(pattern, bytes):
+        pattern = pattern.decode("latin-1")
+    loc = rx.locate_group(rx.parse(pattern, flags), gid)
+    if loc is None:
+        return None
+    body = loc[0]
+    try:
+        return body.getwidth()
+    except AttributeError:
+        import re._parser as sp
+        s = sp.SubPattern(sp.State(), list(body))
+        return s.getwidth()
